@@ -23,7 +23,7 @@ ENGINES = [
                        "SQLAlchemy events, enumerated over every point of a workload"},
     {"name": "models", "path": "vlib/checks", "serves_properties": ["C13", "C14", "C15", "C17", "C18", "C19", "C24", "C25", "C37"],
      "kind_free_text": "offline checkers and relation monitors over the real pure functions"},
-    {"name": "io", "path": "vlib/checks", "serves_properties": ["C04", "C16", "C29", "C30", "C31", "C32", "C34", "C35"],
+    {"name": "io", "path": "vlib/checks", "serves_properties": ["C04", "C16", "C29", "C30", "C31", "C32", "C34", "C35", "C36"],
      "kind_free_text": "round-trip / cross-process differential monitors"},
 ]
 
@@ -182,6 +182,10 @@ reg("C32", "io", "differential monitor: real oneshot entry point over scratch fi
     "The real protocol functions and `redun oneshot` (in-process, and a real subprocess for a slice) are run for single "
     "and array jobs under every index variable; outcomes, per-element isolation, job-name round trips and reuniting on "
     "fake listings are compared with local execution / the generated listing.", "Same code on both sides; local scratch.")
+reg("C36", "io", "before/after row comparison over the real migration chain from every historical schema version",
+    "Databases created at each of the historical schema versions by redun's own migrate() are populated through "
+    "schema reflection, upgraded to latest, compared on shared columns (multiset inclusion, timestamps as instants), "
+    "loaded by the library and used for a recording and a replaying run.", "SQLite only, TZ=UTC.")
 
 
 def build():
